@@ -8,6 +8,10 @@ agreement with the driver's reported zeta when it exposes one (advanced exactly 
 logical watchdog of 200 resampling rounds on the wrapped `get_zeta` (termination), and a
 Kolmogorov-Smirnov test of pooled zeta_obs against the closed-form Bal-Neyts CDF for
 prescribed gamma = F delta / 2kT (density), with one re-measurement before an alarm.
+The bound is judged against the delta and the mass-scaling power the workload asked
+for (not what the driver reports), the density clause also by exact binomial tail tests
+at the 1e-9..1e-2 quantiles, and live drivers are re-tuned (delta, temperature, power)
+between steps.
 """
 from __future__ import annotations
 
